@@ -10,14 +10,17 @@ from ..engine import Eval, Failure, Guarded, Target, guard
 from ..values import BPAdapter, norm, snap_bp, to_ref
 from . import _common as cm
 from ._corpus import corpus
-from .c08 import make_older
+from .c08 import make_older, make_retyped
 
 LEVEL = "fault_enumeration"
 QUICK_SHARDS = 4
 RULE = (
     "Hypothesis streams of 0..6 messages of mixed corpus types and values (incl. empty messages, messages carrying "
-    "fields unknown to the reader: reader schema = writer's or an older variant with a generated subset of fields "
-    "deleted) written with dump(stream, SIZE_DELIMITED); for each stream EVERY cut point 0..len(stream) is enumerated. "
+    "fields unknown to the reader: reader schema = writer's, an older variant with a generated subset of fields "
+    "deleted, or a variant declaring such fields with an incompatible wire type; a minority of bodies crossing the "
+    "1/2/3-byte length-prefix boundaries) written with dump(stream, SIZE_DELIMITED); for each stream EVERY cut point "
+    "0..len(stream) is enumerated (streams longer than 600 bytes: every cut within 16 bytes of a frame boundary plus a "
+    "stride of ~300 cuts through the bodies). "
     "Oracle, intact stream: successive load(stream, SIZE_DELIMITED) return the written sequence, stream.tell() after "
     "call i is the spec offset of message i+1, the stream equals the concatenation of the reference's "
     "serialize_length_prefixed framing of the same payloads and parse_length_prefixed reads it back. Cut stream: "
@@ -51,6 +54,9 @@ def targets(ctx):
 
     def reader_cls(it):
         cls = c.bp(it["msg"])
+        if it.get("drop") and it.get("retyped"):
+            # the reader declares these fields with an incompatible wire type and must keep the records as unknown
+            return make_retyped(cls, set(it["drop"]))
         return make_older(cls, set(it["drop"])) if it.get("drop") else cls
 
     def same_as_written(it, loaded):
@@ -179,6 +185,8 @@ def targets(ctx):
             nums = [f.number for f in mi.fields]
             set_nums = [f.number for f in mi.fields if f.name in tree] or nums
             it["drop"] = sorted(draw(st.lists(st.sampled_from(set_nums), unique=True, min_size=1, max_size=3)))
+            if draw(st.integers(0, 2)) == 0:
+                it["retyped"] = True
         return it
 
     # bodies that cross the 1->2 byte (and 2->3 byte) length-prefix boundary through different field shapes
